@@ -427,7 +427,7 @@ func findMaxOccurence(row []int) int {
 	var max int = 0
 	var maxElem int
 	for k, v := range countmap {
-		if v > max {
+		if v > max || (v == max && k < maxElem) {
 			max = v
 			maxElem = k
 		}
